@@ -429,6 +429,55 @@ def p_str_compare(k):
     return (names[k % 3] < 'b', sorted(names)[0], max(names), 'a' < 'B', 'abc' < 'abd', '' < 'a')
 
 
+# ------------------------------------------------------------------------------ bytes, bytearray, memoryview
+def p_bytes_slices(k):
+    b = b'abcdef'
+    return (len(b[k:]), b[k:k + 2] == b'cd', b[:k] + b[k:] == b, b[1:-1] == b'bcde', len(b[4:2]), b[-2:] == b'ef', len(b''.join([b'ab', b'', b'c'])),
+            b''.join((b'x', b'y')) == b'xy')
+
+
+def p_bytearray_grow(k):
+    buf = bytearray()
+    alias = buf
+    buf += b'ab'
+    buf.extend(b'cc')
+    if k:
+        buf += b'!'
+    return (len(buf), len(alias), bytes(alias) == b'abcc' + (b'!' if k else b''), alias is buf, bytes(buf)[:2] == b'ab', bytes(buf)[k:k + 1] == b'abcc!'[k:k + 1])
+
+
+def p_memoryview_write(k):
+    buf = bytearray(b'abcdef')
+    view = memoryview(buf)
+    view[:2] = b'XY'
+    sub = view[2:]
+    sub[k:k + 1] = b'Z'
+    view[1:][k:][:1] = b'Q'
+    return (len(view), len(sub), len(view[k:]), len(view[k:k + 2]), len(view[5:3]), len(view[-2:]), len(view[10:]),
+            bytes(buf) == b'XYZdef', bytes(buf) == b'XQcZef', bytes(sub) == bytes(buf)[2:], len(bytes(view[1:3])))
+
+
+def p_memoryview_size_mismatch(k):
+    buf = bytearray(b'abcd')
+    view = memoryview(buf)
+    if k == 1:
+        view[0:2] = b'xyz'
+    if k == 2:
+        view[3:] = b''
+    view[k:k + 1] = b'!'
+    return bytes(buf) == b'abc!'
+
+
+def p_bytearray_prealloc(k):
+    buf = bytearray(4)
+    view = memoryview(buf)
+    received = 0
+    for piece in (b'ab', b'c', b'd'):
+        view[received:received + len(piece)] = piece
+        received += len(piece)
+    return (received, len(buf), bytes(buf) == b'abcd', bytes(view[:k]) == b'abcd'[:k])
+
+
 # ------------------------------------------------------------------------------ classes
 def p_class_basic(k):
     b = Box(k)
